@@ -257,6 +257,8 @@ class PoolAdapter:
             W.lingers = set()
         elif n == 'ScanBegin':
             self._scan_begin()
+            if self.scan is not None and self.scan['co'].finished:
+                self._scan_end()
         elif n == 'ScanVisit':
             sc = self.scan
             if sc is None or not sc['left']:
@@ -269,13 +271,32 @@ class PoolAdapter:
             if sc['co'].crash is not None:
                 raise sc['co'].crash
             if sc['co'].finished:
-                bp.copy = sc['real_copy']
-                self.scan = None
+                self._scan_end()
         elif n == 'Tick':
             W.t += 1
         else:
             raise ValueError(n)
         return ret
+
+    def _scan_end(self):
+        sc = self.scan
+        if sc is not None:
+            bp.copy = sc['real_copy']
+            sc['left'] = []
+            self.scan = None
+
+    def _finish_scan(self):
+        """let a parked scan run to its end (free run / quiesce)"""
+        n = 0
+        while self.scan is not None and not self.scan['co'].finished and n < 50:
+            self.scan['co'].resume()
+            n += 1
+        if self.scan is not None:
+            if self.scan['co'].crash is not None:
+                crash = self.scan['co'].crash
+                self._scan_end()
+                raise crash
+            self._scan_end()
 
     def _pausing(self, h):
         """FineScan: the scanner parks at the start of every visit -- where it reads the job's
@@ -317,7 +338,6 @@ class PoolAdapter:
                 sc['left'] = list(keys)
                 for k in keys:
                     yield k, dict.__getitem__(self_d, k)
-                sc['left'] = []
 
         class CopyShim:
             def copy(self_c, x):
@@ -440,6 +460,9 @@ class PoolAdapter:
         """Drive the real pool to a quiet point: deliver every pending message, let every
         running worker finish, reap, and let the clock run past every limit."""
         pool, W = self.pool, self.world
+        if self.scan is not None:
+            self._finish_scan()
+            yield {'name': 'ScanRest'}, self.project()
         for rnd in range(6):
             # workers finish what they run
             for pid in sorted(W.procs):
